@@ -160,6 +160,7 @@ PROPS["C10"] = dict(
     rule="generated action sequences",
     steps=[
         dict(test="^TestC10_Hooks$", quick=dict(checks=1500, timeout=900), thorough=dict(checks=10000, shards=12, timeout=3000)),
+        dict(test="^TestC10_Concurrent$", quick=dict(timeout=900), thorough=dict(shards=4, timeout=3000)),
     ],
 )
 
